@@ -280,6 +280,27 @@ theorem link_init (veq : V → V → Bool) (cfg : List (Indexer Id Res L)) :
   intro k
   simp [State.init, Index.val, Index.empty, RefSt.init, lastval, RelH]
 
+omit [DecidableEq O] in
+/-- exact equality from the provenance relation when the history has no `==`-twins -/
+theorem RelH.eq_of_noTwins {veq : V → V → Bool} {hist : List (List (Option K × V))} {k : Option K}
+    {contrib : List (Option K × V)} {x : Option V}
+    (hin : contrib = [] ∨ contrib ∈ hist) (hnt : NoTwins veq hist)
+    (h : RelH veq hist k x (lastval k contrib)) : x = lastval k contrib := by
+  cases hx : x with
+  | none => rw [hx] at h; cases hl : lastval k contrib <;> simp [hl, RelH] at h ⊢
+  | some v' =>
+    rw [hx] at h
+    cases hl : lastval k contrib with
+    | none => simp [hl, RelH] at h
+    | some v =>
+      simp only [hl, RelH] at h
+      rcases h with h | ⟨hv, m, hm, hk⟩
+      · rw [h]
+      · have hmem := lastval_mem k contrib v hl
+        rcases hin with h0 | h0
+        · rw [h0] at hmem; simp at hmem
+        · rw [hnt m hm contrib h0 k v' v hk hmem hv]
+
 /-- the per-index effect of one step, extracted from `step_spec` -/
 theorem view_of_step (veq : V → V → Bool) (cfg : List (Indexer Id Res L)) (bk : Nat)
     (hnd : (cfg.map (·.id)).Nodup)
@@ -289,15 +310,6 @@ theorem view_of_step (veq : V → V → Bool) (cfg : List (Indexer Id Res L)) (b
   obtain ⟨s1, h1, _, h3, _, _⟩ := step_spec veq cfg bk hnd s e hi
   rw [hs] at h1; cases h1
   exact h3 c hc k o
-
-/-- frame lemma: events never touch other objects' entries -/
-theorem others_untouched (veq : V → V → Bool) (cfg : List (Indexer Id Res L)) (bk : Nat)
-    (hnd : (cfg.map (·.id)).Nodup)
-    (s s' : State Id K V O) (e : Event Id Res L K V O) (hi : s.InvAll)
-    (hs : step veq cfg bk s e = some s') (c : Indexer Id Res L) (hc : c ∈ cfg)
-    (k : Option K) (o : O) (ho : o ≠ e.obj) :
-    (s'.ixs c.id).val k o = (s.ixs c.id).val k o := by
-  rw [view_of_step veq cfg bk hnd s s' e hi hs c hc, view_other _ _ _ _ _ _ ho]
 
 end Link
 end Kopf.C17
